@@ -3,7 +3,7 @@
    objects one by one) with the reading of the property text "the keys (and their subkeys) currently loaded". *)
 From Coq Require Import ZArith List Bool Lia.
 Import ListNotations.
-Require Import PV.Lib.Bytes PV.Model.Keyring PV.Spec.Keyring_spec.
+Require Import PV.Lib.Bytes PV.Model.Keyring PV.Spec.Keyring_spec PV.Proofs.Keyring_lemmas PV.Proofs.Keyring_lemmas2.
 Open Scope Z_scope.
 
 Lemma NoDup_app_inv {A} (l1 l2 : list A) : NoDup (l1 ++ l2) -> NoDup l1 /\ NoDup l2 /\ forall x, In x l1 -> In x l2 -> False.
@@ -56,6 +56,12 @@ Proof.
   rewrite orb_false_r. apply Z.eqb_neq. intro E. apply Hni. rewrite E. apply in_map. exact Hj'.
 Qed.
 
+Lemma fold_add_new_loaded : forall subs S, (forall j, In j subs -> is_loaded (kid j) S = true) -> fold_left add_new subs S = S.
+Proof.
+  induction subs as [|j r IH]; intros S Hl; cbn; [reflexivity|].
+  unfold add_new at 2. rewrite (Hl j (or_introl eq_refl)). apply IH. intros j' Hj'. apply Hl. right. exact Hj'.
+Qed.
+
 Lemma in_drop k S x : In x (drop k S) <-> In x S /\ kid x <> k.
 Proof.
   unfold drop. rewrite filter_In, negb_true_iff, Z.eqb_neq. tauto.
@@ -78,9 +84,12 @@ Lemma whole_step U S L o : universe_ok U -> In (key_of o) U -> J U S L -> J U (s
 Proof.
   intros [Hnd Hprim] Hk [HJ Hincl]. destruct o as [[i subs]|[i subs]]; cbn [key_of] in Hk; cbn [spec_step live_step fst].
   - (* Load *)
+    assert (Hadd : add_new S i = if is_loaded (kid i) S then S else S ++ [i]) by reflexivity. rewrite Hadd. clear Hadd.
     destruct (is_loaded (kid i) S) eqn:E.
     + apply is_loaded_true in E as [x [Hx Ex]]. apply HJ in Hx as [k' [Hk' Hxk']].
       assert (k' = (i, subs)) by (apply (univ_sep U Hnd k' (i, subs) x i); auto; left; reflexivity). subst k'.
+      rewrite fold_add_new_loaded.
+      2:{ intros j Hj. apply is_loaded_true. exists j. split; [|reflexivity]. apply HJ. exists (i, subs). split; [exact Hk'|right; exact Hj]. }
       assert (Hex : existsb (fun k' : kinfo * list kinfo => kid (fst k') =? kid i) L = true) by (apply (live_has (i, subs)); exists (i, subs); auto).
       rewrite Hex. split; assumption.
     + assert (Hex : existsb (fun k' : kinfo * list kinfo => kid (fst k') =? kid i) L = false).
@@ -142,3 +151,115 @@ Proof.
   intros HU Hops. unfold loaded_after, live_after. apply (whole_fold U HU ops [] [] Hops).
   split; [|intros k []]. intros x. split; [intros []|intros [k [[] _]]].
 Qed.
+
+(* ------------------------------------------------------------------------------------------------ *)
+(* what load() reports is loaded, after ANY history (also one that unloaded a subkey on its own)      *)
+(* ------------------------------------------------------------------------------------------------ *)
+Lemma add_new_keeps k T j : is_loaded k T = true -> is_loaded k (add_new T j) = true.
+Proof. intros H. unfold add_new. destruct (is_loaded (kid j) T); [exact H|]. rewrite is_loaded_app, H. reflexivity. Qed.
+Lemma add_new_has T j : is_loaded (kid j) (add_new T j) = true.
+Proof.
+  unfold add_new. destruct (is_loaded (kid j) T) eqn:E; [exact E|]. rewrite is_loaded_app. cbn. rewrite Z.eqb_refl.
+  rewrite orb_true_r. reflexivity.
+Qed.
+Lemma fold_add_new_keeps k : forall subs T, is_loaded k T = true -> is_loaded k (fold_left add_new subs T) = true.
+Proof. induction subs as [|j r IH]; intros T H; cbn; [exact H|]. apply IH. apply add_new_keeps. exact H. Qed.
+Lemma fold_add_new_has j : forall subs T, In j subs -> is_loaded (kid j) (fold_left add_new subs T) = true.
+Proof.
+  induction subs as [|j' r IH]; intros T []; cbn.
+  - subst j'. apply fold_add_new_keeps. apply add_new_has.
+  - apply IH. assumption.
+Qed.
+Lemma load_components_loaded S k x : In x (comps k) -> is_loaded (kid x) (spec_step S (Load k)) = true.
+Proof.
+  destruct k as [i subs]. cbn [comps fst snd spec_step]. intros [<-|Hx].
+  - apply fold_add_new_keeps. apply add_new_has.
+  - apply fold_add_new_has. exact Hx.
+Qed.
+
+Lemma in_add_new T j x : In x (add_new T j) -> In x T \/ x = j.
+Proof. unfold add_new. destruct (is_loaded (kid j) T); [auto|]. rewrite in_app_iff. cbn. intuition. Qed.
+Lemma in_fold_add_new x : forall subs T, In x (fold_left add_new subs T) -> In x T \/ In x subs.
+Proof.
+  induction subs as [|j r IH]; intros T H; cbn in *; [auto|].
+  destruct (IH _ H) as [H1|H1]; [|auto]. destruct (in_add_new _ _ _ H1); auto.
+Qed.
+Lemma in_spec_step S o x : In x (spec_step S o) -> In x S \/ In x (comps (key_of o)).
+Proof.
+  destruct o as [[i subs]|[i subs]]; cbn [spec_step key_of comps fst snd].
+  - intros H. destruct (in_fold_add_new _ _ _ H) as [H1|H1]; [|right; right; exact H1].
+    destruct (in_add_new _ _ _ H1); [auto|right; left; auto].
+  - intros H. left. destruct (is_loaded (kid i) S); [|exact H]. destruct (kprimary i).
+    + apply in_fold_drop in H as [H _]. apply in_drop in H. tauto.
+    + apply in_drop in H. tauto.
+Qed.
+Lemma loaded_in_objects_gen : forall ops S x, In x (fold_left spec_step ops S) -> In x S \/ In x (objects ops).
+Proof.
+  induction ops as [|o r IH]; intros S x H; cbn [fold_left] in H; [auto|].
+  change (objects (o :: r)) with (comps (key_of o) ++ objects r).
+  destruct (IH _ _ H) as [H1|H1]; [|right; apply in_or_app; auto].
+  destruct (in_spec_step _ _ _ H1); [auto|right; apply in_or_app; auto].
+Qed.
+Lemma loaded_in_objects ops x : In x (loaded_after ops) -> In x (objects ops).
+Proof. intros H. destruct (loaded_in_objects_gen ops [] x H) as [[]|H1]. exact H1. Qed.
+
+Theorem load_result_loaded ops k x : objects_consistent (ops ++ [Load k]) -> In x (comps k) ->
+  In x (loaded_after (ops ++ [Load k])).
+Proof.
+  intros Hc Hx. pose proof (load_components_loaded (loaded_after ops) k x Hx) as Hl.
+  assert (E : loaded_after (ops ++ [Load k]) = spec_step (loaded_after ops) (Load k)).
+  { unfold loaded_after. rewrite fold_left_app. reflexivity. }
+  rewrite <- E in Hl. apply is_loaded_true in Hl as [y [Hy Ey]].
+  assert (y = x); [|subst; exact Hy]. apply Hc; [apply loaded_in_objects; exact Hy| |exact Ey].
+  unfold objects. rewrite flat_map_app. apply in_or_app. right. cbn. rewrite app_nil_r. exact Hx.
+Qed.
+
+Section LoadResult.
+  Variable sort : list pkid -> list pkid.
+
+  (* every fingerprint load() returns is reported by fingerprints() afterwards *)
+  Theorem load_result_is_indexed ops k f : objects_consistent (ops ++ [Load k]) -> In f (load_result k) ->
+    In f (fingerprints (run sort (ops ++ [Load k])) None None).
+  Proof.
+    intros Hc Hf. rewrite fingerprints_exact. unfold load_result in Hf. apply in_map_iff in Hf as [x [<- Hx]].
+    apply in_map. apply load_result_loaded; assumption.
+  Qed.
+
+  (* ... is `in` the keyring and selects a loaded key that has this fingerprint *)
+  Theorem load_result_selects : (forall l, Permutation.Permutation l (sort l)) -> forall ops k f,
+    objects_consistent (ops ++ [Load k]) -> In f (load_result k) ->
+    containsS f (lays (run sort (ops ++ [Load k]))) = true /\
+    exists j, get_key (run sort (ops ++ [Load k])) f = Some j /\ In j (loaded_after (ops ++ [Load k])) /\ selects j f.
+  Proof.
+    intros Hp ops k f Hc Hf. unfold load_result in Hf. apply in_map_iff in Hf as [x [<- Hx]].
+    pose proof (load_result_loaded ops k x Hc Hx) as Hl.
+    assert (Hs : selects x (kfp x)) by (left; left; reflexivity).
+    split; [apply (contains_iff sort Hp); eauto|]. apply (get_total sort Hp _ _ x); assumption.
+  Qed.
+End LoadResult.
+
+(* ---- the code before commit 7e98898: load K, unload sub(K), load K -- load() reports sub(K), the keyring does not hold it ---- *)
+Definition subS : kinfo :=
+  {| kid := 7; kfp := [83; 83]; kuids := []; kcreated := 7; kpublic := false; kprimary := false; kparentless := false |}.
+Definition keyK : key := (fst (mkkeyn 6 [75; 75] name_x), [subS]).
+Definition reload_history : list op := [Load keyK; Unload (subS, []); Load keyK].
+
+Lemma reload_history_consistent : objects_consistent reload_history.
+Proof.
+  intros x y Hx Hy E. cbn in Hx, Hy.
+  repeat match goal with H : _ \/ _ |- _ => destruct H | H : False |- _ => contradiction end; subst;
+    try reflexivity; vm_compute in E; discriminate E.
+Qed.
+Lemma load_result_is_indexed_old_refuted :
+  objects_consistent reload_history /\ In (kfp subS) (load_result keyK) /\
+  ~ In (kfp subS) (fingerprints (run_old_addkey isort reload_history) None None) /\
+  get_key (run_old_addkey isort reload_history) (kfp subS) = None /\
+  keys (run_old_addkey isort reload_history) = loaded_after_old reload_history.
+Proof.
+  split; [exact reload_history_consistent|]. split; [vm_compute; auto|]. split; [|split; vm_compute; reflexivity].
+  vm_compute. intuition discriminate.
+Qed.
+Lemma reload_restores_subkey :
+  In (kfp subS) (fingerprints (run isort reload_history) None None) /\
+  get_key (run isort reload_history) (kfp subS) = Some subS.
+Proof. vm_compute. auto. Qed.
